@@ -13,7 +13,9 @@ Fds    == {"unset", "", "foo", "-1", "0", "1", "2", "3"}
 V == "varlink"
 NameSeqs == {<<>>, <<V>>, <<"x">>, <<V, "x">>, <<"x", V>>, <<"x", "y">>, <<V, V>>,
              <<V, "x", "y">>, <<"x", V, "y">>, <<"x", "y", V>>, <<"x", V, V>>, <<"x", "y", "z">>, <<V, "x", "y", "z">>,
-             <<"Varlink", "x">>, <<"varlink ", "x">>}
+             <<"Varlink", "x">>, <<"varlink ", "x">>,
+             \* empty entries are entries: they count towards LISTEN_FDS and hold their position
+             <<"", V>>, <<V, "">>, <<"x", "", V>>, <<"", "x", V>>, <<"x", V, "">>, <<"", "">>, <<"", "", V>>}
 NameSets == {[set |-> FALSE, v |-> <<>>]} \cup {[set |-> TRUE, v |-> s] : s \in NameSeqs}
 Kinds == {"socket", "file", "pipe"}
 (* kinds of descriptors 3, 4, 5: at most one is not a listening socket *)
